@@ -848,7 +848,7 @@ class VM:
                 else:
                     # Create prototype object for the function
                     # In JavaScript, every function has a prototype property
-                    prototype = JSObject()
+                    prototype = JSObject(self._object_prototype())
                     prototype.set("constructor", js_func)
                     js_func._prototype = prototype
 
